@@ -125,18 +125,14 @@ func hasFault(fs []fault, n string) bool {
 	return false
 }
 
-func TestC04(t *testing.T) {
-	rec := ev.Get("C04")
-	rec.Rule("valid sealed tuple (C03 generator) plus 1..3 injected rule violations at drawn positions (23 fault kinds over draft 5.1/7/7.1, truncation of the outer hello and of the decrypted inner at every offset, wrong record/message type); oracle: error class in the injected faults' classes, nothing readable, exactly one matching fatal alert then Close on the transport. distinct = (fault kinds, positions); every case is non-trivial")
-	var m []string
-	for _, f := range c04Faults {
-		m = append(m, "fault:"+f.name)
-	}
-	m = append(m, "multi_fault")
-	rec.Mandatory(m...)
-	rapid.Check(t, func(t *rapid.T) {
+// c04Build draws a valid sealed tuple and injects 1..3 rule violations; it returns the
+// record to send, the server's key, the error classes the faults map to, a description
+// of the faults and their class labels. (Also used by C08 as a source of authentic but
+// illegal hellos.)
+func c04Build(t *rapid.T) (record []byte, key *hello.Key, classes []string, desc []string, cl []string) {
+	{
 		pub := hello.GenName(t, "public_name", 253)
-		key := drawKey(t, "key", -1, pub)
+		key = drawKey(t, "key", -1, pub)
 		tp := hello.GenTuple(t, hello.TupleOpts{PublicName: pub})
 		// choose faults
 		nf := 1
@@ -193,7 +189,6 @@ func TestC04(t *testing.T) {
 			}
 		}
 		sort.Slice(fs, func(i, j int) bool { return fs[i].stage < fs[j].stage })
-		var desc []string
 		inner := tp.Inner.Clone()
 		// --- stage 1: inner semantic faults
 		if hasFault(fs, "inner_no_ech_ext") {
@@ -482,18 +477,19 @@ func TestC04(t *testing.T) {
 			desc = append(desc, fmt.Sprintf("outer_truncated@%d/%d", k, len(body)))
 		}
 		// --- stage 7: record level
-		record := hello.Record(22, 0x0303, msg)
+		rec0 := hello.Record(22, 0x0303, msg)
 		if hasFault(fs, "record_not_handshake") {
 			ct := []byte{20, 21, 23, 24, 0, 255}[uniform(t, "ctype", 6)]
-			record[0] = ct
+			rec0[0] = ct
 			desc = append(desc, fmt.Sprintf("record_not_handshake(%d)", ct))
 		}
 		if hasFault(fs, "msg_not_client_hello") {
 			mt := []byte{0, 2, 4, 8, 11, 20, 254}[uniform(t, "mtype", 7)]
-			record[5] = mt
+			rec0[5] = mt
 			desc = append(desc, fmt.Sprintf("msg_not_client_hello(%d)", mt))
 		}
-		var classes, cl []string
+		record = rec0
+
 		seen := map[string]bool{}
 		for _, f := range fs {
 			if !seen[f.class] {
@@ -505,6 +501,21 @@ func TestC04(t *testing.T) {
 		if len(fs) > 1 {
 			cl = append(cl, "multi_fault")
 		}
+	}
+	return
+}
+
+func TestC04(t *testing.T) {
+	rec := ev.Get("C04")
+	rec.Rule("valid sealed tuple (C03 generator) plus 1..3 injected rule violations at drawn positions (23 fault kinds over draft 5.1/7/7.1, truncation of the outer hello and of the decrypted inner at every offset, wrong record/message type); oracle: error class in the injected faults' classes, nothing readable, exactly one matching fatal alert then Close on the transport. distinct = (fault kinds, positions); every case is non-trivial")
+	var m []string
+	for _, f := range c04Faults {
+		m = append(m, "fault:"+f.name)
+	}
+	m = append(m, "multi_fault")
+	rec.Mandatory(m...)
+	rapid.Check(t, func(t *rapid.T) {
+		record, key, classes, desc, cl := c04Build(t)
 		keys := []*hello.Key{key}
 		rp := map[string]any{"keys": keysReplay(keys), "client_stream": hx(record), "expect": "abort", "want_error": strings.Join(classes, "|"), "want_alert": alertClass[classes[0]].desc, "faults": desc}
 		tr := wire.New(record, io.EOF)
